@@ -103,7 +103,7 @@ def plan(tier: str) -> dict:
     cases = _cases()
     return {
         "runs": 3000 if tier == "quick" else 200000,
-        "budget": 90 if tier == "quick" else 1500,
+        "budget": 90 if tier == "quick" else 900,
         "cases": cases,
         "chunk": 40,
         "rule": "Twelve openings (plain, pipelined, prior-knowledge preface, TLS-stub ALPN h2 / http/1.1 / none, h2c "
